@@ -328,6 +328,15 @@ class Blockwise(ArrayExpr):
         return f"{prefix}-{self.deterministic_token}"
 
     def _layer(self):
+        lowered = self._lower()
+        if lowered is not None and lowered._name != self._name:
+            # Not in lowered form: the operands' chunks still have to be
+            # unified, so the tasks below would pair blocks that do not
+            # correspond.  Reached when dask walks a raw expression node by
+            # node (``dask.optimize``); the graph of this subtree is then the
+            # materialized one, pinned to this node's keys.
+            return ArrayExpr._layer(self)
+
         arginds = [(a, i) for (a, i) in toolz.partition(2, self.args)]
 
         numblocks = {}
